@@ -261,6 +261,12 @@ type params struct {
 	state    string
 	teSubjectType string // token exchange: which token is presented
 	teAudience []string
+	// token-exchange storage policy of the fixture (refstore.TEPolicy): what ValidateTokenExchangeRequest
+	// does to the request - the REQUEST's subject / scopes then differ from the presented token's
+	tePolSub    string // "" = keep; else request.SetSubject(tePolSub) (impersonation)
+	tePolEmpty  bool   // request.SetCurrentScopes([])
+	teDropScope bool   // the request also asks for scope "drop", which the storage removes
+	teActor     string // "" = none; else an actor_token (refresh token) of this user is presented
 	// verification
 	offset  int64
 	vAlgs   []string // nil = library default
@@ -523,6 +529,14 @@ func gen(r drv.Rand, i int, nKeys int, histSlot bool) params {
 	if r.Chance(1, 2) {
 		p.teAudience = audienceFor(r, p.cid)
 	}
+	if r.Chance(1, 2) {
+		p.tePolSub = drv.Pick(r, []string{"bob", "alice", "tenant:alice", "ghost", "Alice", "a:b:c", "web"})
+	}
+	p.tePolEmpty = r.Chance(1, 8)
+	p.teDropScope = r.Chance(1, 4)
+	if r.Chance(1, 3) {
+		p.teActor = drv.Pick(r, []string{"bob", "alice", "tenant:alice", "user@example.com", "de\u017fk"})
+	}
 	// flow-specific adjustments so that the flow can succeed
 	switch p.flow {
 	case "implicit_id", "implicit_tok":
@@ -624,6 +638,7 @@ type result struct {
 	rqACR     string
 	rqAMR     []string
 	rqAuth    int64
+	rqActor   string
 	seq       int
 	t0, t1    time.Time
 	newTokens []*refstore.Token
@@ -676,6 +691,9 @@ func dropFn(drop []string) func([]string) []string {
 	return func(s []string) []string { return without(s, drop) }
 }
 
+// tePolicies: the token-exchange policy the fixture of a store was built with (zero = plain refstore.TE)
+var tePolicies = map[*refstore.Store]refstore.TEPolicy{}
+
 // setup builds store + fixture. provAlgs: what the provider's own verifiers allow
 // (the signing algorithm; every algorithm of the history when the key will change).
 func setup(p params, sk signState, provAlgs []string) (*refstore.Store, *opfix.Fixture) {
@@ -703,11 +721,17 @@ func setup(p params, sk signState, provAlgs []string) (*refstore.Store, *opfix.F
 	}}
 	var f *opfix.Fixture
 	var err error
+	issuerFn := op.StaticIssuer(p.issuer)
 	if p.dynIssuer {
 		// the issuer of every request is https://<Host of that request>
-		f, err = opfix.NewWithIssuer(st, o, op.IssuerFromHost(""))
+		issuerFn = op.IssuerFromHost("")
+	}
+	if pol := (refstore.TEPolicy{Subject: p.tePolSub, EmptyScopes: p.tePolEmpty}); pol != (refstore.TEPolicy{}) {
+		// a storage whose ValidateTokenExchangeRequest retargets the request (refstore/ext_c15.go)
+		tePolicies[st] = pol
+		f, err = opfix.NewWithStorage(st, st.AsStorageTEPolicy(pol), o, issuerFn)
 	} else {
-		f, err = opfix.New(st, o)
+		f, err = opfix.NewWithIssuer(st, o, issuerFn)
 	}
 	if err != nil {
 		panic(err)
@@ -963,10 +987,30 @@ func run(p params, st *refstore.Store, f *opfix.Fixture, arm func()) *result {
 		req := map[string]oidc.TokenType{"te_access": oidc.AccessTokenType, "te_refresh": oidc.RefreshTokenType, "te_id": oidc.IDTokenType}[p.flow]
 		form := url.Values{"grant_type": {string(oidc.GrantTypeTokenExchange)}, "subject_token": {subTok}, "subject_token_type": {string(subType)},
 			"requested_token_type": {string(req)}}
+		if p.teActor != "" {
+			pa := p
+			pa.subject = p.teActor
+			if second := codeFlow(pa, st, f); second != nil && second.Str("refresh_token") != "" {
+				form.Set("actor_token", second.Str("refresh_token"))
+				form.Set("actor_token_type", string(oidc.RefreshTokenType))
+				res.rqActor = p.teActor
+			}
+		}
+		// the REQUEST as the storage leaves it after ValidateTokenExchangeRequest: scope "drop" is removed
+		// (refstore.TE), the policy may empty the scopes and retarget the subject; the tokens must name
+		// these final values, not the presented token's
+		pol := tePolicies[st]
+		asked := append([]string{}, p.narrowed...)
+		if p.teDropScope {
+			asked = append(asked, "drop")
+		}
 		res.rqScopes = []string{}
-		if p.narrowed != nil {
-			form.Set("scope", strings.Join(p.narrowed, " "))
-			res.rqScopes = p.narrowed
+		if len(asked) > 0 || p.narrowed != nil {
+			form.Set("scope", strings.Join(asked, " "))
+			res.rqScopes = without(asked, []string{"drop"})
+		}
+		if pol.EmptyScopes {
+			res.rqScopes = []string{}
 		}
 		res.rqAud = []string{}
 		for _, a := range p.teAudience {
@@ -974,6 +1018,9 @@ func run(p params, st *refstore.Store, f *opfix.Fixture, arm func()) *result {
 			res.rqAud = append(res.rqAud, a)
 		}
 		res.rqSub = p.subject
+		if pol.Subject != "" {
+			res.rqSub = pol.Subject
+		}
 		bracket(func() *opfix.Resp { return f.Post(p.router, "/oauth/token", form, basic(p), "") })
 		fromJSON()
 		if p.flow == "te_id" {
@@ -1307,7 +1354,7 @@ func oneCaseRot(p params, sk, sk2 signState, rot int, st *refstore.Store, f *opf
 			emit.Str(refstore.RichUsername(u.Subject)), emit.Str(refstore.RichPhone(u.Subject)), emit.Str(refstore.RichAddress(u.Subject))))
 	}
 	reqTerm := emit.Ctor("mkReq", emit.Str(res.rqSub), emit.StrList(optStrs(res.rqAud)), emit.StrList(optStrs(res.rqScopes)),
-		emit.Str(res.rqNonce), emit.Str(res.rqACR), emit.StrList(optStrs(res.rqAMR)), emit.Z(res.rqAuth))
+		emit.Str(res.rqNonce), emit.Str(res.rqACR), emit.StrList(optStrs(res.rqAMR)), emit.Z(res.rqAuth), emit.Str(res.rqActor))
 	idsTerm := emit.Ctor("mkIds", emit.Str(fmt.Sprintf("at%d", res.seq+1)), emit.Str(fmt.Sprintf("rt%d", res.seq+1)), emit.Str(fmt.Sprintf("at%d", res.seq+2)))
 
 	var rawOpaque []byte
@@ -1476,7 +1523,20 @@ func oneCaseRot(p params, sk, sk2 signState, rot int, st *refstore.Store, f *opf
 	if p.dynIssuer {
 		issKind = "dynamic"
 	}
-	tags := []string{"client=" + p.cid, "issuer=" + issKind, "aud=" + audClass(res.rqAud, res.client), "claimnames=" + nameClass(p.customs),
+	tepol := "na"
+	if strings.HasPrefix(p.flow, "te_") {
+		pol := tePolicies[st]
+		tepol = "plain"
+		switch {
+		case pol.Subject != "" && pol.Subject != p.subject && pol.EmptyScopes:
+			tepol = "subject+noscopes"
+		case pol.Subject != "" && pol.Subject != p.subject:
+			tepol = "subject"
+		case pol.EmptyScopes:
+			tepol = "noscopes"
+		}
+	}
+	tags := []string{"tepolicy=" + tepol, fmt.Sprintf("actor=%v", res.rqActor != ""), "client=" + p.cid, "issuer=" + issKind, "aud=" + audClass(res.rqAud, res.client), "claimnames=" + nameClass(p.customs),
 		"router=" + p.router.String(), "flow=" + p.flow, "at=" + atKind, "alg=" + string(sk.alg), fmt.Sprintf("skew=%d", p.skew),
 		fmt.Sprintf("idlife=%d", p.idLife), fmt.Sprintf("atlife=%d", p.atLife), "subject_colon=" + colon, "openid=" + openid,
 		"assert=" + emit.Bool(p.assert), fmt.Sprintf("offset=%d", p.offset), fmt.Sprintf("custom=%v", contains(res.rqScopes, "custom:x") || contains(res.rqScopes, "custom:y")),
@@ -1652,7 +1712,7 @@ func main() {
 		history(r, p, sk0(p, algs), algs, pool, w, tl)
 	}
 	err := w.Close(emit.Meta{Property: "C06", Tier: cfg.Tier, Seed: cfg.Seed,
-		Rule: "one case = one token response: a complete flow (code, implicit id_token / id_token token, refresh, device, client_credentials, jwt-bearer, token-exchange for access / refresh / ID token) run over HTTP recorders against the Provider or LegacyServer router on refstore; flow and router cycle deterministically, the rest is drawn from the PRNG: signing key (RS256, PS256, ES256, ES384, ES512, EdDSA; two key materials per algorithm under the SAME kid, kid shared across algorithms in half of the cases; published with use sig or without use, with further keys before / after it: previous key, an enc key and a key of another type under the same kid, rarely a clashing signature key), access-token type, client clock skew (0, +-30 s), ID/access-token lifetimes, scope set (15 base sets plus a random extra standard scope: with/without openid, every subset pattern of profile/email/phone/address, offline_access, custom:x/y; the storage serves a distinct claim group per standard scope and marks userinfo scopes that reach the private-claims lookup), restricted scopes, userinfo-assertion flag, subject (also with ':', unknown to the user store, case / white-space neighbours of other subjects, keyword-like values), client (web, or the same registration as desk), issuer (static, or - every other block of all flows x routers plus a quarter of the rest - derived from each request's Host by op.IssuerFromHost, five hosts incl. a port and mixed case), the storage-defined audience (default, empty, the exact client id, near misses of the client id: case variants, U+017F / U+212A fold variants, white space / %20 / + / tab / LF around it, trailing slash; other values; several; for authorization, device and token-exchange requests), custom claim names (half of the cases add 1-2 scopes custom:<n>, which the storage turns into the private claim <n> of a JWT access token and the userinfo claim <n> of an ID token: exact names, ASCII-case variants and U+017F / U+212A fold variants of the registered members this case's tokens are certain to carry, near misses that fold to no member, variants of sid / scope), nonce/acr/state (also white space at the ends, null / 0 / false / [], longer than 1 KiB and 4 KiB), amr, auth time, and the verifier configuration (consistent in most cases; default algorithm list, short offset against a negative skew as inconsistent ones). Every fourth slot is a multi-issuance history in one store/provider (tag hist=): issue, replace the storage's signing key (same kid new material and back; new kid new material with the old key still published; same kid other algorithm), issue again - or two providers alive at once with the same kid and different key material, issuing alternately, or the signing key replaced after the 1st / 2nd Storage.SigningKey call WITHIN the request under test (new kid, mostly another hash family, both keys published), or one dynamic-issuer provider serving host A, host B, host A (two_issuers), or one provider serving a request that carries every optional field (nonce, acr, amr, audience, auth time, custom claims), then a request of another flow / maybe the other client for the same subject that OMITS them, then the rich request for the other client, then the first again (omit_after); each response is a case of its own whose input names the key current at that issuance and which is verified against the /keys document served at that time. Claims are compared as the library's own decoder reads the signed payload (json.Unmarshal into oidc.IDTokenClaims / oidc.AccessTokenClaims). Every case issues tokens, so non-trivial = all; distinct = distinct (input, model path class: flow x token kind x refresh token x verdicts).",
+		Rule: "one case = one token response: a complete flow (code, implicit id_token / id_token token, refresh, device, client_credentials, jwt-bearer, token-exchange for access / refresh / ID token) run over HTTP recorders against the Provider or LegacyServer router on refstore; flow and router cycle deterministically, the rest is drawn from the PRNG: signing key (RS256, PS256, ES256, ES384, ES512, EdDSA; two key materials per algorithm under the SAME kid, kid shared across algorithms in half of the cases; published with use sig or without use, with further keys before / after it: previous key, an enc key and a key of another type under the same kid, rarely a clashing signature key), access-token type, client clock skew (0, +-30 s), ID/access-token lifetimes, scope set (15 base sets plus a random extra standard scope: with/without openid, every subset pattern of profile/email/phone/address, offline_access, custom:x/y; the storage serves a distinct claim group per standard scope and marks userinfo scopes that reach the private-claims lookup), restricted scopes, userinfo-assertion flag, subject (also with ':', unknown to the user store, case / white-space neighbours of other subjects, keyword-like values), client (web, or the same registration as desk), issuer (static, or - every other block of all flows x routers plus a quarter of the rest - derived from each request's Host by op.IssuerFromHost, five hosts incl. a port and mixed case), the storage-defined audience (default, empty, the exact client id, near misses of the client id: case variants, U+017F / U+212A fold variants, white space / %20 / + / tab / LF around it, trailing slash; other values; several; for authorization, device and token-exchange requests), custom claim names (half of the cases add 1-2 scopes custom:<n>, which the storage turns into the private claim <n> of a JWT access token and the userinfo claim <n> of an ID token: exact names, ASCII-case variants and U+017F / U+212A fold variants of the registered members this case's tokens are certain to carry, near misses that fold to no member, variants of sid / scope), the token-exchange storage policy of the fixture (plain, or ValidateTokenExchangeRequest retargets the request's subject - another known / unknown user - and / or empties its scopes; the request may ask for scope drop, which the storage removes; a third of the exchanges present an actor_token of a third user: the case names the request's FINAL subject / scopes and the actor), nonce/acr/state (also white space at the ends, null / 0 / false / [], longer than 1 KiB and 4 KiB), amr, auth time, and the verifier configuration (consistent in most cases; default algorithm list, short offset against a negative skew as inconsistent ones). Every fourth slot is a multi-issuance history in one store/provider (tag hist=): issue, replace the storage's signing key (same kid new material and back; new kid new material with the old key still published; same kid other algorithm), issue again - or two providers alive at once with the same kid and different key material, issuing alternately, or the signing key replaced after the 1st / 2nd Storage.SigningKey call WITHIN the request under test (new kid, mostly another hash family, both keys published), or one dynamic-issuer provider serving host A, host B, host A (two_issuers), or one provider serving a request that carries every optional field (nonce, acr, amr, audience, auth time, custom claims), then a request of another flow / maybe the other client for the same subject that OMITS them, then the rich request for the other client, then the first again (omit_after); each response is a case of its own whose input names the key current at that issuance and which is verified against the /keys document served at that time. Claims are compared as the library's own decoder reads the signed payload (json.Unmarshal into oidc.IDTokenClaims / oidc.AccessTokenClaims). Every case issues tokens, so non-trivial = all; distinct = distinct (input, model path class: flow x token kind x refresh token x verdicts).",
 		Extra: map[string]any{"clock_ambiguous": tl.ambiguous, "setup_failed": tl.failedSetup}})
 	if err != nil {
 		fmt.Fprintln(os.Stderr, err)
